@@ -29,4 +29,6 @@ WorkBound == [][ last'.op \in {"Get", "Put", "Remove"} => WorkOK("avl", 0, last'
 RECURSIVE CanonK(_, _)
 CanonK(t, x) == IF x = Nil THEN <<>> ELSE <<t.n[x].key, t.n[x].b, CanonK(t, t.n[x].c0), CanonK(t, t.n[x].c1)>>
 Fid == PrintT("S|" \o ToJson(CanonK(T, T.root)))
+\* every generated transition of the model as <<from, op, key, to>> (fidelity of the EDGES; always TRUE)
+FidEdge == PrintT("E|" \o ToJson(<<CanonK(T, T.root), last'.op, last'.k, CanonK(T', T'.root)>>))
 =============================================================================
